@@ -93,7 +93,14 @@ ExoticBodies ==
      [name |-> "update-nested",             kind |-> "ext_out", body |-> "ref",    bd |-> Ord(<<1, 1>>, <<U1, XT>>)],
      [name |-> "library-nested",            kind |-> "ext_in",  body |-> "ref",    bd |-> Ord(<<1, 0, 1>>, <<L1, Ord(<<0>>, <<L1>>)>>)],
      [name |-> "pruned-branch-in-body",     kind |-> "int",     body |-> "ref",    bd |-> Ord(<<0, 0>>, <<PrunedNode(XT), XT>>)],
-     [name |-> "proof-as-init-code",        kind |-> "int",     body |-> "inline", bd |-> Ord(<<>>, <<>>)] >>
+     [name |-> "proof-as-init-code",        kind |-> "int",     body |-> "inline", bd |-> Ord(<<>>, <<>>)],
+     \* pruned branches whose level mask has several significant bits (a record cut out of a proof nested in two Merkle cells)
+     [name |-> "pruned-mask-3-as-body",     kind |-> "int",     body |-> "ref",    bd |-> PrunedMaskNode(V1, 3)],
+     [name |-> "pruned-mask-3-inline-body", kind |-> "ext_out", body |-> "inline", bd |-> Ord(<<1, 0>>, <<PrunedMaskNode(V1, 3), XT>>)],
+     [name |-> "pruned-mask-5-nested",      kind |-> "ext_out", body |-> "ref",    bd |-> Ord(<<1>>, <<Ord(<<0>>, <<PrunedMaskNode(V1, 5)>>), XT>>)],
+     [name |-> "pruned-mask-6-as-body",     kind |-> "int",     body |-> "ref",    bd |-> PrunedMaskNode(Ord(<<1, 1>>, <<PrunedMaskNode(XT, 2)>>), 6)],
+     [name |-> "pruned-mask-7-nested",      kind |-> "int",     body |-> "ref",    bd |-> Ord(<<0, 1>>, <<PrunedMaskNode(Ord(<<>>, <<PrunedMaskNode(V1, 3), YT>>), 7)>>)],
+     [name |-> "pruned-masks-2-and-4",      kind |-> "int",     body |-> "ref",    bd |-> Ord(<<1>>, <<PrunedMaskNode(XT, 2), PrunedMaskNode(YT, 4)>>)] >>
 ExoticCase(k) == LET sh == IF k = "ext_in" THEN ShapeOf(k, "none", "ref", "none", "std", FALSE, "zero")
                            ELSE IF k = "int" THEN ShapeOf(k, "none", "ref", "std", "std", FALSE, "nonzero")
                            ELSE ShapeOf(k, "none", "ref", "var", "extern", FALSE, "zero")
